@@ -409,6 +409,23 @@ class Module(ABC):
         assert idx.dtype in [np_dtype, bool], "Invalid dtype"
         return idx.reshape(-1)
 
+    def _bool_to_global_index(
+        self, idx: Any, global_index: pd.Series
+    ) -> Optional[np.ndarray]:
+        """Return the global indices selected by a boolean mask (or None if no mask).
+
+        A boolean mask with one entry per cell / branch / compartment / edge in view
+        selects by position among them. The positions of its `True` entries are not
+        themselves indices: global indices of a view need not start at zero and local
+        indices restart in every parent."""
+        if isinstance(idx, str) or idx is None:
+            return None
+        mask = np.asarray(idx)
+        in_view = np.unique(global_index.to_numpy())
+        if mask.dtype == bool and mask.ndim == 1 and len(mask) == len(in_view):
+            return in_view[mask]
+        return None
+
     def _set_controlled_by_param(self, key: str):
         """Determines which parameters are shared in `make_trainable`.
 
@@ -486,9 +503,13 @@ class Module(ABC):
         """
         base_name = self.base.__class__.__name__
         assert self.base._has_childview(key), f"{base_name} does not support {key}."
+        scope = self._scope
+        mask_inds = self._bool_to_global_index(idx, self.nodes[f"global_{key}_index"])
+        if mask_inds is not None:
+            idx, scope = mask_inds, "global"
         idx = self._reformat_index(idx)
-        idx = self.nodes[self._scope + f"_{key}_index"] if is_str_all(idx) else idx
-        where = self.nodes[self._scope + f"_{key}_index"].isin(idx)
+        idx = self.nodes[scope + f"_{key}_index"] if is_str_all(idx) else idx
+        where = self.nodes[scope + f"_{key}_index"].isin(idx)
         inds = self.nodes.index[where].to_numpy()
 
         view = View(self, nodes=inds)
@@ -500,9 +521,13 @@ class Module(ABC):
 
         Keys can be `pre`, `post`, `edge` and determine which index is used to filter.
         """
+        scope = self._scope
+        mask_inds = self._bool_to_global_index(idx, self.edges[f"global_{key}_index"])
+        if mask_inds is not None:
+            idx, scope = mask_inds, "global"
         idx = self._reformat_index(idx)
-        idx = self.edges[self._scope + f"_{key}_index"] if is_str_all(idx) else idx
-        where = self.edges[self._scope + f"_{key}_index"].isin(idx)
+        idx = self.edges[scope + f"_{key}_index"] if is_str_all(idx) else idx
+        where = self.edges[scope + f"_{key}_index"].isin(idx)
         inds = self.edges.index[where].to_numpy()
 
         view = View(self, edges=inds)
